@@ -79,6 +79,7 @@ func body(sp spec) {
 	subOK := make([]bool, S)
 	origs := map[string]*message.Message{}
 	snaps := map[string]*message.Message{}
+	snapsAfter := map[string]*message.Message{} // the originals after their publishers recycled them
 	pubStart := map[string]int{}
 	pubDone := map[string]bool{}
 
@@ -183,6 +184,11 @@ func body(sp spec) {
 				if err := g.Publish("t", origs[u]); err != nil {
 					vs.Fail("publish-error", "Publish(%s) on an open Pub/Sub failed: %v", u, err)
 				}
+				// Publish has returned: the value is the publisher's again, and it recycles it; what the
+				// subscribers receive (now or on a later redelivery) is what was published
+				origs[u].Payload = []byte("recycled by the publisher")
+				origs[u].Metadata.Set("recycled", "yes")
+				snapsAfter[u] = origs[u].Copy()
 				pubDone[u] = true
 			}
 		}()
@@ -196,7 +202,11 @@ func body(sp spec) {
 		if !pubDone[u] {
 			vs.Fail("publish-hang", "Publish(%s) has not returned at quiescence (cfg %s)", u, sp.Cfg)
 		}
-		if !hx.SameContent(o, snaps[u]) {
+		want := snaps[u]
+		if snapsAfter[u] != nil {
+			want = snapsAfter[u]
+		}
+		if !hx.SameContent(o, want) {
 			vs.Fail("original-untouched", "publisher's original %q changed: metadata=%v", u, o.Metadata)
 		}
 		if vs.PeekClosed(o.Acked()) || vs.PeekClosed(o.Nacked()) {
